@@ -153,12 +153,12 @@ type scen struct {
 }
 
 func (s *scen) newRoot(g bool, ts, th int64) int {
-	s.ops = append(s.ops, fmt.Sprintf("ONewRoot %s %s %s", hxlib.CoqBool(g), hxlib.CoqZ(ts), hxlib.CoqZ(th)))
+	s.ops = append(s.ops, fmt.Sprintf("ONewRoot %s %s %s", hxlib.CoqBool(g), z(ts), z(th)))
 	s.ntrk++
 	return s.ntrk - 1
 }
 func (s *scen) opNew(parent int, ts, th int64) int {
-	s.ops = append(s.ops, fmt.Sprintf("ONew %s %s %s", hxlib.CoqNat(parent), hxlib.CoqZ(ts), hxlib.CoqZ(th)))
+	s.ops = append(s.ops, fmt.Sprintf("ONew %s %s %s", hxlib.CoqNat(parent), z(ts), z(th)))
 	s.ntrk++
 	return s.ntrk - 1
 }
@@ -320,49 +320,42 @@ func (s *scen) fillPool(g module.TransactionGroup, pool []PoolTx) error {
 	return nil
 }
 
-func (s *scen) poolBefore(g module.TransactionGroup) []elemObs {
+// poolBefore lists the pool in iteration order and keeps the element handles.
+func (s *scen) poolBefore(g module.TransactionGroup) ([]elemObs, *service.VerifC37Handle) {
+	h := service.VerifC37PoolHandle(s.e.pools[g])
+	els, _ := h.State()
 	var out []elemObs
-	for _, el := range service.VerifC37PoolElems(s.e.pools[g]) {
+	for _, el := range els {
 		out = append(out, elemObs{Num: s.numOf(el.Tx.ID()), Direct: el.Direct})
 	}
-	return out
+	return out, h
 }
 
-// poolAfter reads e.err of every element right after Candidate (set inside the
-// call) and then waits for the removal goroutine: dropTransactions removes all
-// its elements in one critical section, so as soon as one element that carries
-// an error other than "NotEnoughBalance on a direct transaction" is gone, all
-// are.  Elements that stay after 5 s are reported as not removed.
-func (s *scen) poolAfter(g module.TransactionGroup, before []elemObs) {
-	tp := s.e.pools[g]
-	idx := map[int]int{}
-	for i := range before {
-		idx[before[i].Num] = i
-	}
+// poolAfter reads e.err of every element (written inside Candidate, so complete
+// when the call returns) and then waits for the removal goroutine:
+// dropTransactions removes all its elements in one critical section, so as
+// soon as one element that carries an error other than "NotEnoughBalance on a
+// direct transaction" is gone, all are.  What is still linked after 5 s is
+// reported as not removed.
+func (s *scen) poolAfter(h *service.VerifC37Handle, obs []elemObs) {
+	els, _ := h.State()
 	expect := false
-	for _, el := range service.VerifC37PoolElems(tp) {
-		i, ok := idx[s.numOf(el.Tx.ID())]
-		if !ok {
-			continue
-		}
+	for i, el := range els {
 		if el.HasErr {
-			before[i].Err = classOfCode(el.ErrCode)
-			before[i].ErrText = el.ErrText
-			if !(before[i].Err == cBalance && before[i].Direct) {
+			obs[i].Err = classOfCode(el.ErrCode)
+			obs[i].ErrText = el.ErrText
+			if !(obs[i].Err == cBalance && obs[i].Direct) {
 				expect = true
 			}
 		}
 	}
 	deadline := time.Now().Add(5 * time.Second)
 	for {
-		present := map[int]bool{}
-		for _, el := range service.VerifC37PoolElems(tp) {
-			present[s.numOf(el.Tx.ID())] = true
-		}
+		_, in := h.State()
 		gone := false
-		for i := range before {
-			before[i].Removed = !present[before[i].Num]
-			if before[i].Removed {
+		for i := range obs {
+			obs[i].Removed = !in[i]
+			if obs[i].Removed {
 				gone = true
 			}
 		}
@@ -422,9 +415,10 @@ func (s *scen) runBlock(bp *BlockPlan, height int) (*blockOut, error) {
 			MaxBytes: bp.MaxBytes, MaxCount: 0, Unfinal: s.unfinal}
 		o.Snap = s.snapshot()
 		o.Bal = s.balances(s.gpar)
-		o.Pool = s.poolBefore(module.TransactionGroupPatch)
+		var ph *service.VerifC37Handle
+		o.Pool, ph = s.poolBefore(module.TransactionGroupPatch)
 		patches := e.sm.GetPatches(s.gpar, bi)
-		s.poolAfter(module.TransactionGroupPatch, o.Pool)
+		s.poolAfter(ph, o.Pool)
 		o.Sel = txList(s, patches)
 		pt := e.sm.PatchTransition(s.par, patches, bi)
 		v, x, f := runTransition(pt, true)
@@ -460,12 +454,13 @@ func (s *scen) runBlock(bp *BlockPlan, height int) (*blockOut, error) {
 		MaxBytes: bp.MaxBytes, MaxCount: bp.MaxCount, Unfinal: s.unfinal}
 	o.Snap = s.snapshot()
 	o.Bal = s.balances(s.par)
-	o.Pool = s.poolBefore(module.TransactionGroupNormal)
+	var nh *service.VerifC37Handle
+	o.Pool, nh = s.poolBefore(module.TransactionGroupNormal)
 	P, err := e.sm.ProposeTransition(s.par, bi, e.csi)
 	if err != nil {
 		return nil, fmt.Errorf("ProposeTransition: %v", err)
 	}
-	s.poolAfter(module.TransactionGroupNormal, o.Pool)
+	s.poolAfter(nh, o.Pool)
 	o.Sel = txList(s, P.NormalTransactions())
 	out.Normal = o
 
@@ -661,8 +656,18 @@ func (s *scen) coqTx(n int) string {
 		cnt = 2*t.Pad + 4
 	}
 	return fmt.Sprintf("(T %d %s %d %d %s %s %s %s %s)", n, hxlib.CoqBool(!t.Patch), t.From, t.To,
-		hxlib.CoqZ(t.Value), hxlib.CoqZ(t.Limit), hxlib.CoqZ(cnt), hxlib.CoqZ(t.TS),
-		hxlib.CoqZ(len(s.real[n].Bytes())))
+		z(t.Value), z(t.Limit), z(cnt), z(t.TS),
+		z(len(s.real[n].Bytes())))
+}
+
+// z prints a Z argument of a constructor / function whose argument scope is Z
+// (plain literal: much faster to parse than a delimited one).
+func z(v interface{}) string {
+	t := fmt.Sprint(v)
+	if strings.HasPrefix(t, "-") {
+		return "(" + t + ")"
+	}
+	return t
 }
 
 func coqInts(l []int) string {
@@ -674,7 +679,7 @@ func coqInts(l []int) string {
 }
 
 func coqSnap(sn snapshot) string {
-	return fmt.Sprintf("(SN %s %s %s)", coqInts(sn.Locs), hxlib.CoqZ(sn.MaxP), hxlib.CoqZ(sn.MaxN))
+	return fmt.Sprintf("(SN %s %s %s)", coqInts(sn.Locs), z(sn.MaxP), z(sn.MaxN))
 }
 
 func coqBal(b []*big.Int) string {
@@ -687,7 +692,7 @@ func coqBal(b []*big.Int) string {
 
 func (s *scen) coqFee() string {
 	p := &s.plan.P
-	return fmt.Sprintf("(F %s %s %s)", hxlib.CoqZ(p.Price), hxlib.CoqZ(p.CDefault), hxlib.CoqZ(p.CInput))
+	return fmt.Sprintf("(F %s %s %s)", z(p.Price), z(p.CDefault), z(p.CInput))
 }
 
 type corrupt int
@@ -728,7 +733,7 @@ func (s *scen) coqCand(o *candObs, how corrupt) string {
 	}
 	return fmt.Sprintf("CCand %s %s %s %s %s %s %s %s %s %s %s %s %s (Some %s) %d",
 		hxlib.CoqList(o.H), coqSnap(o.Snap), hxlib.CoqNat(o.P), s.coqFee(), hxlib.CoqBool(o.Group),
-		hxlib.CoqZ(s.plan.P.ThMS), hxlib.CoqZ(o.BTS), hxlib.CoqZ(o.MaxBytes), hxlib.CoqZ(o.MaxCount),
+		z(s.plan.P.ThMS), z(o.BTS), z(o.MaxBytes), z(o.MaxCount),
 		hxlib.CoqList(pool), coqBal(o.Bal), coqInts(sel), hxlib.CoqList(errs), hxlib.CoqList(rem), verdict)
 }
 
@@ -739,7 +744,7 @@ func (s *scen) coqVal(o *valObs) string {
 	}
 	return fmt.Sprintf("CVal %s %s %s %s true %s %s %s %s %d",
 		hxlib.CoqList(o.H), coqSnap(o.Snap), hxlib.CoqNat(o.P), s.coqFee(),
-		hxlib.CoqZ(s.plan.P.ThMS), hxlib.CoqZ(o.BTS), hxlib.CoqList(txs), coqBal(o.Bal), o.Verdict)
+		z(s.plan.P.ThMS), z(o.BTS), hxlib.CoqList(txs), coqBal(o.Bal), o.Verdict)
 }
 
 // ---------------------------------------------------------------------------
@@ -1165,6 +1170,6 @@ func main() {
 		ID: "C37",
 		Rule: "scenarios on a real service.Manager (real pools, TXIDManager, locator manager, transitions; basic platform; in-memory db): genesis with random balances (0, tight, large), step price {0,1,7,10,1000}, step costs, timestamp threshold {default 5 min, 1, 2, 5, 50 ms}; 1..4 blocks with block timestamps stepping by {1, 2, 500, th/2, th-1, th, th+1, 2th, 2th+1, 3th, 5th} (eviction, maxTSInDB); per block a fresh pool of 0..12 signed v3 transactions (timestamps at bts-th-1, bts-th, bts-th+1, bts+-1, bts+th-1, bts+th, bts+th+1, inside, far outside; four shared senders with values that exhaust / exceed by one / leave one of the working balance; recipients that spend what they just received; from = to; step limits at minimum, minimum-1; message data; transactions of earlier blocks offered again; the same transaction added twice), limits at prefix sums of the sizes +-1, counts 1..4, defaults (<= 0); one block in four followed by a block proposed on an unfinalized parent; one block in three with a patch-group pool; plus extra lists (whole pool, duplicate, reversed, foreign element, chain transaction) through the validator only. non-trivial = a pool of >= 2 elements from which Candidate selects some but not all (finalized parent) / a non-empty extra list; distinct = distinct Coq case term",
 		Preamble: "From Goloop Require Import lib.Bytes Model_Locator Model_TxPool.\nFrom GoloopRun Require Import Run_C37.",
-		Gen:      gen, Replay: replay, Shard: 60,
+		Gen:      gen, Replay: replay, Shard: 150,
 	})
 }
